@@ -170,7 +170,8 @@ NEAR = {frozenset(('circle', 'circleannulus')): 0.01, frozenset(('circle', 'poly
 WIDE_D = 0.02            # pixel; 1% of the smallest full size in the catalogue (2.0)
 
 # 'empty': the constructor is given an explicit EMPTY meta and visual -- the compound is then included, whatever operand 1 says
-VARIANTS = [['operator', 'inherit'], ['method', 'inherit'], ['ctor', 'inherit'], ['ctor', False], ['ctor', True], ['ctor', 'empty']]
+VARIANTS = [['operator', 'inherit'], ['method', 'inherit'], ['ctor', 'inherit'], ['ctor', False], ['ctor', True], ['ctor', 'empty'],
+            ['ctor_np', 'inherit']]      # ctor_np: the operator spelt as the numpy function (np.logical_and / _or / _xor)
 OPERAND_INCS = ['absent', False]
 WCSS = [[proj, rot] for proj in ('TAN', 'SIN') for rot in (0.0, 30.0, 137.0)]
 # latitude on the first world axis (CTYPE1 = DEC--TAN): the 7th WCS, used for one configuration in three of the quick tier
@@ -251,6 +252,8 @@ def _combine(e, ra, rb, sky=False):
     if form == 'method':
         return getattr(ra, METHOD[op])(rb)
     cls = R.CompoundSkyRegion if sky else R.CompoundPixelRegion
+    if form == 'ctor_np':
+        return cls(ra, rb, {'and': np.logical_and, 'or': np.logical_or, 'xor': np.logical_xor}[op])
     if inc == 'inherit':
         return cls(ra, rb, OPS[op])
     if inc == 'empty':
@@ -502,9 +505,10 @@ def cmp_struct(cx, got, bt, leaf_expect, want_cls, prefix, path, **extra):
         cx.bad(prefix + '_structure', f'{path}: is a {type(got).__name__}, expected {want_cls.__name__}',
                want_cls.__name__, type(got).__name__, **extra)
         return
-    if got.operator is not OPS[e['op']]:
-        cx.bad(prefix + '_structure', f'{path}: operator is {got.operator!r}, expected {OPS[e["op"]]!r}',
-               repr(OPS[e['op']]), repr(got.operator), **extra)
+    want_op = OPS[e['op']] if e.get('form') != 'ctor_np' else {'and': np.logical_and, 'or': np.logical_or, 'xor': np.logical_xor}[e['op']]
+    if got.operator is not want_op:
+        cx.bad(prefix + '_structure', f'{path}: operator is {got.operator!r}, expected {want_op!r}',
+               repr(want_op), repr(got.operator), **extra)
     if not _dicts_equal(got.meta, bt.reg.meta):
         cx.bad(prefix + '_meta', f'{path}: meta {dict(got.meta)!r} != meta of the source compound {dict(bt.reg.meta)!r}',
                repr(dict(bt.reg.meta)), repr(dict(got.meta)), **extra)
@@ -790,7 +794,7 @@ def check_pair_config(res, e, wcss, rots, lc_holder=None, only=None, reverse=Tru
     comp = bt.reg
     import regions as R
     res.transitions += 1
-    if type(comp) is not R.CompoundPixelRegion or comp.operator is not OPS[e['op']]:
+    if type(comp) is not R.CompoundPixelRegion or (comp.operator is not OPS[e['op']] and e.get('form') != 'ctor_np'):
         cx.bad('compound_structure', f'{short(e)} is a {type(comp).__name__} with operator {getattr(comp, "operator", None)!r}; '
                                      f'expected a CompoundPixelRegion with {OPS[e["op"]]!r}', repr(OPS[e['op']]),
                repr(getattr(comp, 'operator', None)))
@@ -1282,6 +1286,83 @@ def check_sky_annulus(res, c):
                                      f'annulus {bool(got[k])}, expected {bool(want[k])}', bool(want[k]), bool(got[k]))
 
 
+# ---- compounds of shapes without area ---------------------------------------------------------------------------
+AF_NAMES = ['point', 'line', 'text']
+
+
+def areal_free_cases():
+    out = []
+    for n1 in AF_NAMES:
+        for n2 in AF_NAMES:
+            for op in OPNAMES:
+                for i1 in ('absent', False):
+                    for i2 in ('absent', False):
+                        for cinc in ('inherit', False, True):
+                            out.append({'part': 'areal_free', 'n1': n1, 'n2': n2, 'op': op, 'i1': i1, 'i2': i2, 'cinc': cinc})
+    return out
+
+
+def check_areal_free(res, c):
+    """Points, lines and labels contain nothing (excluded: everything); their pixel classes answer with one boolean for a
+    scalar position, their sky classes with one boolean for anything.  A compound of two of them is the operator applied to
+    those answers, negated when the compound's own flag (given, or inherited from the first operand) says excluded --
+    and the answer is a boolean, whatever the operands hand to the operator."""
+    import regions as R
+    from regions import PixCoord
+    from mc.pool import wcs_simple
+    cx = Ctx(res, dict(c))
+    res.states += 1
+    res.evaluations += 1
+    res.axis('part', 'areal_free')
+
+    def leaf(name, inc, x, y):
+        meta = {} if inc == 'absent' else {'include': inc}
+        if name == 'point':
+            return R.PointPixelRegion(PixCoord(x, y), meta=meta)
+        if name == 'line':
+            return R.LinePixelRegion(PixCoord(x, y), PixCoord(x + 3.0, y - 1.5), meta=meta)
+        return R.TextPixelRegion(PixCoord(x, y), 'a label', meta=meta)
+    try:
+        ra, rb = leaf(c['n1'], c['i1'], 61.25, 48.5), leaf(c['n2'], c['i2'], 58.0, 50.25)
+        kw = {} if c['cinc'] == 'inherit' else {'meta': R.RegionMeta({'include': c['cinc']})}
+        comp = R.CompoundPixelRegion(ra, rb, OPS[c['op']], **kw)
+        w = wcs_simple(rot_deg=30.0, cdelt=1e-3, proj='TAN')
+        sa, sb = ra.to_sky(w), rb.to_sky(w)
+        scomp = R.CompoundSkyRegion(sa, sb, OPS[c['op']], **({} if c['cinc'] == 'inherit' else {'meta': R.RegionMeta({'include': c['cinc']})}))
+    except Exception as exc:          # noqa: BLE001
+        cx.bad('build_failed', f'could not build the compound: {type(exc).__name__}: {exc}')
+        return
+    v1, v2 = c['i1'] is False, c['i2'] is False
+    v = {'and': v1 and v2, 'or': v1 or v2, 'xor': v1 != v2}[c['op']]
+    flag = (c['i1'] is not False) if c['cinc'] == 'inherit' else bool(c['cinc'])
+    want = v if flag else (not v)
+    qx, qy = np.array([61.25, 58.0, 10.0]), np.array([48.5, 50.25, 90.0])
+    res.transitions += 5
+    for k in range(3):
+        pc = PixCoord(float(qx[k]), float(qy[k]))
+        ok, g = _call(cx, 'contains(scalar)', lambda: comp.contains(pc), check='scalar')
+        if ok and (not _isboolscalar(g) or bool(g) != want):
+            cx.bad('scalar_answer_not_bool' if not _isboolscalar(g) else 'membership_wrong',
+                   f'pixel compound, scalar query ({qx[k]}, {qy[k]}): got {g!r}, expected the boolean {want}', want, repr(g), check='scalar')
+        ok, g = _call(cx, '`coord in region`', lambda: pc in comp, check='scalar')
+        if ok and (not _isboolscalar(g) or bool(g) != want):
+            cx.bad('in_operator_wrong', f'pixel compound, `coord in region` at ({qx[k]}, {qy[k]}): got {g!r}, expected {want}', want, repr(g), check='scalar')
+    ok, g = _call(cx, 'contains(array)', lambda: comp.contains(PixCoord(qx, qy)), check='array')
+    if ok:
+        arr = np.asarray(g)
+        if arr.dtype != bool or arr.shape != qx.shape or not bool(np.all(arr == want)):
+            cx.bad('membership_wrong', f'pixel compound, array query: got {g!r}, expected three times {want}', want, repr(g), check='array')
+    for what, q in (('scalar', w.pixel_to_world(float(qx[0]), float(qy[0]))), ('array', w.pixel_to_world(qx, qy))):
+        ok, g = _call(cx, f'sky contains({what})', lambda: scomp.contains(q, w), check='sky_' + what)
+        if not ok:
+            continue
+        arr = np.asarray(g)
+        if arr.dtype != bool or arr.shape not in ((), qx.shape) or not bool(np.all(arr == want)):
+            cx.bad('membership_wrong', f'sky compound, {what} query: got {g!r}, expected the boolean {want}', want, repr(g), check='sky_' + what)
+    res.nontriv(('areal_free', json_key(c)))
+    res.outcome(('areal_free', c['op'], c['cinc'], want, cx.ok))
+
+
 def json_key(c):
     import json
     return json.dumps(c, sort_keys=True)
@@ -1314,8 +1395,9 @@ def shards(tier, seed):
     for k in range(nm):
         out.append({'part': 'annulus_mask', 'k': k, 'n': nm})
     out.append({'part': 'sky_annulus'})
+    out.append({'part': 'areal_free'})
     # heavy shards first
-    order = {'pair': 0, 'tree3': 1, 'tree2': 2, 'annulus': 3, 'annulus_mask': 4, 'sky_annulus': 5}
+    order = {'pair': 0, 'tree3': 1, 'tree2': 2, 'annulus': 3, 'annulus_mask': 4, 'sky_annulus': 5, 'areal_free': 6}
     out.sort(key=lambda s: order[s['part']])
     return out
 
@@ -1349,6 +1431,9 @@ def run_shard(shard, tier, seed):
     elif part == 'sky_annulus':
         for c in sky_annulus_cases():
             check_sky_annulus(res, c)
+    elif part == 'areal_free':
+        for c in areal_free_cases():
+            check_areal_free(res, c)
     elif part == 'annulus_mask':
         for spec in annulus_mask_specs(tier)[shard['k']::shard['n']]:
             check_annulus_mask(res, spec)
@@ -1369,6 +1454,8 @@ def replay(case):
         check_tree(res, case['tree'], case['flags'], extras=case.get('extras', False), only=only)
     elif case['part'] == 'sky_annulus':
         check_sky_annulus(res, {k: case[k] for k in ('part', 'cls', 'size', 'angle', 'units', 'include', 'wcs', 'aniso') if k in case})
+    elif case['part'] == 'areal_free':
+        check_areal_free(res, {k: case[k] for k in ('part', 'n1', 'n2', 'op', 'i1', 'i2', 'cinc')})
     elif case['part'] == 'annulus_mask':
         s = dict(case['spec'])
         inc = s.pop('include', 'absent')
